@@ -27,6 +27,9 @@ func system(n int, mask uint, classes []string, pauses int, drifts int, celProbe
 	successor := len(celProbes) > 2 && celProbes[2]
 	withPrev := len(celProbes) > 3 && celProbes[3]
 	remote := len(celProbes) > 4 && celProbes[4]
+	if len(celProbes) > 5 && celProbes[5] {
+		probes = world.FEProbes()
+	}
 	cfg := osw.B1(n, mask)
 	return &world.System{
 		Name: fmt.Sprintf("B1 phases=%d delegated=%03b pauses=%d drifts=%d", n, mask, pauses, drifts),
@@ -269,6 +272,7 @@ type shape struct {
 	succ    bool // a newer revision r2 (previous: r1) keeps r1's first phase only
 	prev    bool // r1 names an earlier revision r0 as previous (its first pass assigns revision 2)
 	remote  bool // delegated phases have a class served by a scripted remote phase controller
+	fe      bool // Gadgets are probed by fieldsEqual over two status fields (both absent at first)
 }
 
 var (
@@ -289,6 +293,7 @@ func shapes(quick bool) []shape {
 			{n: 2, mask: 0, classes: zero}, {n: 2, mask: 1, classes: zero},
 			{n: 2, mask: 0, classes: two, sliced: true, prev: true}, {n: 2, mask: 2, classes: two, prev: true},
 			{n: 2, mask: 1, classes: []string{"ready"}, remote: true}, {n: 3, mask: 0b010, classes: []string{"ready"}, remote: true},
+			{n: 3, mask: 0, classes: two, fe: true}, {n: 3, mask: 0b010, classes: two, fe: true},
 		}
 	}
 	var out []shape
@@ -314,6 +319,7 @@ func shapes(quick bool) []shape {
 	}
 	out = append(out, shape{n: 3, mask: 0, classes: two, succ: true}, shape{n: 2, mask: 0, classes: two, drifts: 1, succ: true})
 	out = append(out, shape{n: 2, mask: 1, classes: two, remote: true}, shape{n: 3, mask: 0b010, classes: two, remote: true}, shape{n: 3, mask: 0b011, classes: []string{"ready"}, remote: true, pauses: 1})
+	out = append(out, shape{n: 3, mask: 0, classes: three, fe: true}, shape{n: 3, mask: 0b010, classes: two, fe: true}, shape{n: 3, mask: 0b110, classes: two, fe: true})
 	out = append(out, shape{n: 2, mask: 0, classes: two, sliced: true, prev: true}, shape{n: 3, mask: 0, classes: two, sliced: true, prev: true}, shape{n: 2, mask: 0b10, classes: three, sliced: true, prev: true}, shape{n: 2, mask: 1, classes: two, prev: true})
 	return out
 }
@@ -327,10 +333,10 @@ func run(o checks.Opts) *report.Report {
 		if o.Shards > 1 && i%o.Shards != o.Shard {
 			continue
 		}
-		sys := system(s.n, s.mask, s.classes, s.pauses, s.drifts, s.cel, s.sliced, s.succ, s.prev, s.remote)
-		sys.Name += fmt.Sprintf(" statuses=%d celProbes=%v sliced=%v successor=%v prev=%v remote=%v", len(s.classes), s.cel, s.sliced, s.succ, s.prev, s.remote)
+		sys := system(s.n, s.mask, s.classes, s.pauses, s.drifts, s.cel, s.sliced, s.succ, s.prev, s.remote, s.fe)
+		sys.Name += fmt.Sprintf(" statuses=%d celProbes=%v sliced=%v successor=%v prev=%v remote=%v fieldsEqualStatus=%v", len(s.classes), s.cel, s.sliced, s.succ, s.prev, s.remote, s.fe)
 		sys.MaxStates = 400000
-		osw.RunBFS(rep, sys, map[string]any{"n": s.n, "mask": s.mask, "classes": s.classes, "pauses": s.pauses, "drifts": s.drifts, "cel": s.cel, "sliced": s.sliced, "succ": s.succ, "prev": s.prev, "remote": s.remote})
+		osw.RunBFS(rep, sys, map[string]any{"n": s.n, "mask": s.mask, "classes": s.classes, "pauses": s.pauses, "drifts": s.drifts, "cel": s.cel, "sliced": s.sliced, "succ": s.succ, "prev": s.prev, "remote": s.remote, "fe": s.fe})
 		rep.Samples = append(rep.Samples, map[string]any{"system": sys.Name, "example_path": []string{"reconcile:os:r1", "workload:Widget/a=ready", "reconcile:os:r1", "workload:Widget/a=notready", "reconcile:os:r1"}})
 	}
 	return rep
@@ -352,7 +358,8 @@ func replay(v report.Violation) string {
 	succ, _ := v.Params["succ"].(bool)
 	prev, _ := v.Params["prev"].(bool)
 	remote, _ := v.Params["remote"].(bool)
-	return osw.ReplayBFS(system(int(n), uint(mask), classes, int(pauses), int(drifts), cel, sliced, succ, prev, remote), v)
+	fe, _ := v.Params["fe"].(bool)
+	return osw.ReplayBFS(system(int(n), uint(mask), classes, int(pauses), int(drifts), cel, sliced, succ, prev, remote, fe), v)
 }
 
 // twinScenarios: phase gating of the cluster-scoped kinds in lockstep with the namespaced ones.
